@@ -376,13 +376,16 @@ def cases(draw):
 
 class C31(core.Prop):
     id = "C31"
+    ready = True
     drivers = ["mpi_interp"]
     sizes = {"quick": 900, "thorough": 30000}
     max_workers = 4
     technique = ("property-based testing (Hypothesis): element-wise reference (Python integers, numpy float32/float64/80-bit long double) of "
                  "every predefined operator, compared with MPI_Reduce_local and MPI_Allreduce results; exhaustive operator x datatype sweep")
     rule = ("A case = one simulated SMPI run of 1..4 ranks executing 1..10 tests; a test = (operator, predefined datatype, count 0..64, one "
-            "vector per contributor) run through MPI_Reduce_local (in, inout) or MPI_Allreduce (one vector per rank, optionally MPI_IN_PLACE). "
+            "vector per contributor) run through MPI_Reduce_local (in, inout), MPI_Allreduce (one vector per rank, optionally MPI_IN_PLACE), or "
+            "one-sided MPI_Accumulate / MPI_Get_accumulate / MPI_Fetch_and_op between two fences (table pairs plus MPI_REPLACE and MPI_NO_OP: "
+            "window of the target, windows of the other ranks, fetched previous content). "
             "Datatypes: every distinct predefined handle of the MPI table (C integers, Fortran integers, floating point, C/C++ bool, C/C++/"
             "Fortran complex, byte, AINT/OFFSET/COUNT, the pair types) plus CHAR/WCHAR; widths from MPI_Type_size. Values: extremes of every "
             "width, +-0, +-inf, largest/smallest floats, small values (ties), repeated vectors. Oracle: (1) pair in the MPI-3.1 5.9.2 table: "
@@ -398,8 +401,8 @@ class C31(core.Prop):
                    "types wrap (integer promotion) and are compared",
                    "folds over more than two contributors of floating-point SUM/PROD, and all complex PROD, use small exactly representable "
                    "values so that the association order and the complex multiplication algorithm cannot change the result",
-                   "MPI_REPLACE and MPI_NO_OP are only checked to be rejected by Reduce_local/Allreduce (MPI allows them in RMA calls only); "
-                   "their RMA semantics belong to C34",
+                   "MPI_REPLACE and MPI_NO_OP must be rejected by Reduce_local/Allreduce (MPI allows them in RMA calls only); their results are "
+                   "checked through Accumulate/Get_accumulate/Fetch_and_op at displacement 0 inside a fence epoch (epoch rules themselves: C34)",
                    "smpi/errors-are-fatal:no so that error codes are returned instead of aborting"]
 
     def strategy(self, tier):
